@@ -4,10 +4,11 @@ from .engine import Case, Prop
 
 
 class C08(Prop):
-    """Theorems (Props/C08.lean) about the printing model + correspondence: the printed text read back is the value cut off toward zero at the last printed digit, with the continuation mark exactly when something non-zero was cut off; all three printing paths, every digit budget."""
+    """Theorems (Props/C08.lean) about the printing model + correspondence: the printed text read back is the value cut off toward zero at the last printed digit, with the continuation mark exactly when something non-zero was cut off; all three printing paths, every digit budget. `Props/C08Reader.lean`: mark-free printed text fed to the model of the tool's OWN reader (`Number.fromStr`) gives back exactly the printed value (`C08_reader_roundtrip_partial`, up to the reader's u32 counters; implementation side: C07's `printed-by-the-tool` family)."""
     id = "C08"
     needs_knobs = ("default",)
     module = "Anything.Props.C08"
+    extra_modules = ["Anything.Props.C08Reader"]   # printer ∘ the tool's own reader (Number.fromStr) = identity on mark-free text
     trusted = ["Spec.Printed (read-back and faithfulness) is human input"]
 
     def nontrivial(self, case, impl):
